@@ -118,5 +118,7 @@ def graph_and_records(draw, canonical, max_records, min_records=1, tags=True, ma
         # hairpins and back links: walks that turn around (same contig, opposite orientation, abutting intervals)
         prefix = draw(st.sampled_from(closed)) if (closed and draw(st.integers(0, 3)) == 0) else None
         recs.append(draw(gen_gaf.record(g, lm, canonical=canonical, name="rd%d" % i, tags=tags,
-                                        with_cigar=draw(st.integers(0, 9)) > 0, prefix=prefix, max_len=4 if prefix else 8)))
+                                        with_cigar=draw(st.integers(0, 9)) > 0, prefix=prefix, max_len=4 if prefix else 8,
+                                        # conversion only reverses the CIGAR: M runs and N (reference skip) runs are legal too
+                                        cigar_ops=draw(st.sampled_from(["=XID", "=XID", "=XIDMN"])))))
     return g, recs
